@@ -9,8 +9,12 @@ pub mod spans;
 pub mod c05;
 pub mod c06;
 pub mod c08;
+pub mod c09;
+pub mod c10;
 pub mod c11;
 pub mod c12;
+pub mod c13;
+pub mod c15;
 pub mod c16;
 pub mod c19;
 pub mod c20;
@@ -29,6 +33,10 @@ pub fn dispatch_check(id: &str, tier: Tier, seed: u64) -> i32 {
         "C19" => run_check(&c19::C19, tier, seed),
         "C20" => run_check(&c20::C20, tier, seed),
         "C11" => run_check(&c11::C11, tier, seed),
+        "C13" => run_check(&c13::C13, tier, seed),
+        "C15" => run_check(&c15::C15, tier, seed),
+        "C09" => run_check(&c09::C09, tier, seed),
+        "C10" => run_check(&c10::C10, tier, seed),
         _ => {
             eprintln!("harness error: unknown property {id}");
             2
@@ -50,6 +58,10 @@ pub fn dispatch_replay(id: &str, file: &str) -> i32 {
         "C19" => run_replay(&c19::C19, file),
         "C20" => run_replay(&c20::C20, file),
         "C11" => run_replay(&c11::C11, file),
+        "C13" => run_replay(&c13::C13, file),
+        "C15" => run_replay(&c15::C15, file),
+        "C09" => run_replay(&c09::C09, file),
+        "C10" => run_replay(&c10::C10, file),
         _ => {
             eprintln!("harness error: unknown property {id}");
             2
